@@ -102,7 +102,7 @@ func keyFor(ctx *Ctx, c cty.Value, o ValOpts) cty.Value {
 }
 
 func hashOracle(v cty.Value) string {
-	u, _ := v.Unmark()
+	u, _ := v.UnmarkDeep()
 	var h int
 	p, _ := try(func() { h = cty.VerifHash(u) })
 	if p {
